@@ -15,13 +15,17 @@ import (
 	"sort"
 	"strings"
 
+	"cosmossdk.io/collections"
+	errorsmod "cosmossdk.io/errors"
 	sdkmath "cosmossdk.io/math"
 	warptypes "github.com/bcp-innovations/hyperlane-cosmos/x/warp/types"
 	cctptypes "github.com/circlefin/noble-cctp/x/cctp/types"
 	sdk "github.com/cosmos/cosmos-sdk/types"
+	sdkerrors "github.com/cosmos/cosmos-sdk/types/errors"
 	banktypes "github.com/cosmos/cosmos-sdk/x/bank/types"
 
 	dispatchertypes "github.com/noble-assets/orbiter/v2/types/component/dispatcher"
+	executortypes "github.com/noble-assets/orbiter/v2/types/component/executor"
 	forwardertypes "github.com/noble-assets/orbiter/v2/types/component/forwarder"
 	"github.com/noble-assets/orbiter/v2/types/core"
 )
@@ -116,10 +120,30 @@ type bExec struct {
 }
 
 func (s *Sim) execScenario(sc *Scenario, fail map[int]int) *bExec {
+	return s.execScenarioWith(sc, fail, nil)
+}
+
+// execScenarioWith: extra is applied to the branch after the scenario's own state edit (e.g. a pause by the authority).
+func (s *Sim) execScenarioWith(sc *Scenario, fail map[int]int, extra shadowEdit) *bExec {
 	b := s.ModeB
 	b.Reset(fail)
 	pkt := s.scenarioPacket(sc)
-	v := s.runVariant("modeb", s.scenarioEdit(sc), false, s.recvCB(s.stackFull(), pkt.packet(), s.Env.Relayers[0].Addr))
+	edit := s.scenarioEdit(sc)
+	if extra != nil {
+		base := edit
+		edit = func(ctx sdk.Context) error {
+			if base != nil {
+				if err := base(ctx); err != nil {
+					return err
+				}
+			}
+			store := b.Plan.Store // the set-up is not part of the delivery: not recorded, never faulted
+			b.Plan.Store = false
+			defer func() { b.Plan.Store = store }()
+			return extra(ctx)
+		}
+	}
+	v := s.runVariant("modeb", edit, false, s.recvCB(s.stackFull(), pkt.packet(), s.Env.Relayers[0].Addr))
 	out := &bExec{V: v, Calls: append([]CallRec(nil), b.Plan.Calls...), Fired: append([]int(nil), b.Plan.Fired...)}
 	b.Reset(nil)
 	return out
@@ -332,8 +356,9 @@ func (s *Sim) runC03Scenario(sc *Scenario, r *Rng) {
 	s.Stats.Count("scenarios")
 	s.Stats.Counts["pairs_enumerated"] += pairs
 	s.storeFaultPass(sc, dry, route)
+	s.pausedFailClosedPass(sc, route)
 	// one drawn fault delivered for real through IBC core: error ack committed, nothing else changed, refund on ack relay
-	if len(idxs) > 0 {
+	if len(idxs) > 0 && len(s.Prof.Shadows) == 0 { // (profiles with twin worlds compare a real delivery with its fault-free twin)
 		i := idxs[r.Intn(len(idxs))]
 		mode := []int{faultBefore, faultAfter}[r.Intn(2)]
 		s.realFaultDelivery(sc, map[int]int{i: mode}, occurrence(dry.Calls, i), route)
@@ -428,6 +453,88 @@ func (s *Sim) storeFaultPass(sc *Scenario, dry *bExec, route string) {
 		}
 	}
 	s.Stats.Counts["store_calls_enumerated"] += nStore
+}
+
+// pausedFailClosedPass: a pause holds under store faults. The scenario's transfer is delivered on a state where its
+// protocol, its (protocol, counterparty) pair or its fee action was paused by the authority; the fault-free delivery
+// must be refused. Then every store call of that delivery fails once per error class (plain, the registered SDK classes
+// and "not found", which a failing store may well return for Has/iterators) and once by panicking: whatever the store
+// answers, the paused transfer is never executed - the outcome is an error acknowledgement or an aborted transaction,
+// never a success, and nothing is paid.
+func (s *Sim) pausedFailClosedPass(sc *Scenario, route string) {
+	in := s.classify(s.scenarioPacket(sc))
+	pl := in.Payload
+	auth := s.Env.Authority.Addr.String()
+	type variant struct {
+		prop, name string
+		msg        sdk.Msg
+	}
+	vs := []variant{
+		{"C08", "protocol", &forwardertypes.MsgPauseProtocol{Signer: auth, ProtocolId: pl.Proto}},
+		{"C08", "pair", &forwardertypes.MsgPauseCrossChains{Signer: auth, ProtocolId: pl.Proto, CounterpartyIds: []string{pl.Counterparty()}}},
+	}
+	if pl.HasFee {
+		vs = append(vs, variant{"C09", "action", &executortypes.MsgPauseAction{Signer: auth, ActionId: "ACTION_FEE"}})
+	}
+	classes := append(append([]error(nil), injectedErrClasses...), errorsmod.Wrap(collections.ErrNotFound, "injected store failure"), errorsmod.Wrap(sdkerrors.ErrNotFound, "injected store failure"))
+	names := append(append([]string(nil), injectedErrNames...), "collections-not-found", "sdk-not-found")
+	s.ModeB.Plan.Store = true
+	defer func() { s.ModeB.Plan.Store = false; storeErrOverride = nil }()
+	for _, v := range vs {
+		v := v
+		extra := func(ctx sdk.Context) error { return s.adminOnBranch(ctx, v.msg) }
+		base := s.execScenarioWith(sc, nil, extra)
+		if base.V.SetupErr != "" {
+			panic(harnessErr("pausing on a branch failed: %s", base.V.SetupErr))
+		}
+		s.Stats.Count("rule:" + v.prop + ".paused-refused-in-scenario")
+		if base.V.Panic != "" {
+			s.violate("C14", "U1-no-panic", "modeb: "+oneLine(base.V.Panic), base.V.Panic)
+			continue
+		}
+		if base.V.Success {
+			s.violate(v.prop, "enforcement", "accepted-while-paused (scenario) what="+v.name, fmt.Sprintf("scenario %s: delivered with its %s paused and accepted", sc.Desc, v.name))
+			continue
+		}
+		for i, c := range base.Calls {
+			if !strings.HasPrefix(c.Site, "store.") {
+				continue
+			}
+			for k := 0; k <= len(classes); k++ {
+				mode, cname := faultBefore, "panic"
+				if k == len(classes) {
+					mode = faultPanic
+				} else {
+					cname = names[k]
+					if strings.HasPrefix(c.Site, "store.Get@") && strings.Contains(cname, "not-found") {
+						continue // "not found" from a Get is an answer (the key is absent), i.e. wrong data, not a failure
+					}
+					storeErrOverride = classes[k]
+				}
+				ex := s.execScenarioWith(sc, map[int]int{i: mode}, extra)
+				storeErrOverride = nil
+				s.Stats.Count("injected_executions")
+				s.Stats.Count("rule:" + v.prop + ".paused-stays-refused-under-store-fault")
+				s.Stats.Fault("injected_store_fault_while_paused:" + cname)
+				if len(ex.Fired) == 0 {
+					panic(harnessErr("planned store fault %s did not fire while paused", occurrence(base.Calls, i)))
+				}
+				s.Stats.States[fmt.Sprintf("paused|%s|%s|%s|%s", route, v.name, occurrence(ex.Calls, ex.Fired[0]), cname)] = true
+				if ex.V.Panic != "" {
+					if !strings.HasPrefix(ex.V.Panic, "injected downstream panic") {
+						s.violate("C14", "U1-no-panic", "modeb: "+oneLine(ex.V.Panic), ex.V.Panic)
+					}
+					continue
+				}
+				if ex.V.Success {
+					s.violate(v.prop, "enforcement", fmt.Sprintf("paused-%s-executed-under-store-fault site=%s class=%s", v.name, storeOp(c.Site), cname),
+						fmt.Sprintf("scenario %s: the %s of the transfer is paused; store call %s failed (%s) during the delivery and the transfer was executed: %v", sc.Desc, v.name, occurrence(ex.Calls, ex.Fired[0]), cname, ex.V.Deltas))
+				} else if len(ex.V.Deltas) != 0 {
+					s.violate("C03", "U2-error-ack-no-effect", "effects-after-error-ack", fmt.Sprintf("scenario %s (paused %s, store fault %s): %v", sc.Desc, v.name, occurrence(ex.Calls, ex.Fired[0]), ex.V.Deltas))
+				}
+			}
+		}
+	}
 }
 
 func storeOp(site string) string {
